@@ -43,14 +43,14 @@ EXHAUSTIVE = {'quick': False, 'thorough': False}
 MIN_HITS = {
     'quick': {
         'mon:grad': 1500, 'mon:avgloss': 2500, 'mon:regonce': 2500, 'mon:empty': 1500, 'mon:evaluator': 2000,
-        'mon:mime': 3000, 'mon:domain': 4000, 'mon:cluster': 2000, 'mon:geom': 2000, 'mon:algo': 30,
+        'mon:mime': 3000, 'mon:domain': 4000, 'mon:cluster': 2000, 'mon:geom': 2000, 'mon:algo': 30, 'algo-all-clients-empty': 12,
         'fully-padded-batch': 150, 'arbitrary-mask': 100, 'garbage-padding': 200, 'empty-client': 30, 'empty-domain': 400,
         'via-model': 300, 'reg:with-centre': 300, 'reg:none': 150, 'geometry:hand-built': 100, 'algo:mime': 2,
         'algo:mime_lite': 2, 'algo:agnostic_fed_avg': 2, 'algo:hyp_cluster': 2,
     },
     'thorough': {
         'mon:grad': 15000, 'mon:avgloss': 25000, 'mon:regonce': 25000, 'mon:empty': 15000, 'mon:evaluator': 20000,
-        'mon:mime': 30000, 'mon:domain': 40000, 'mon:cluster': 20000, 'mon:geom': 20000, 'mon:algo': 500,
+        'mon:mime': 30000, 'mon:domain': 40000, 'mon:cluster': 20000, 'mon:geom': 20000, 'mon:algo': 500, 'algo-all-clients-empty': 150,
         'fully-padded-batch': 1500, 'arbitrary-mask': 1000, 'garbage-padding': 2000, 'empty-client': 300,
         'empty-domain': 4000, 'via-model': 3000, 'reg:with-centre': 3000, 'reg:none': 1500, 'geometry:hand-built': 1000,
         'algo:mime': 25, 'algo:mime_lite': 25, 'algo:agnostic_fed_avg': 25, 'algo:hyp_cluster': 25,
@@ -738,7 +738,7 @@ def dataset_case(ctx, mods, cfgs, MK, i, rng):
 
 
 # ----------------------------------------------------------------- algo family
-def algo_case(ctx, mods, cfgs, i, rng):
+def algo_case(ctx, mods, cfgs, i, rng, force_empty=False):
   """One real algorithm round (eager, jax.disable_jit) under 3 padded-batch geometries.
 
   Mime / Mime-lite: with an SGD+momentum base optimizer the new server opt_state *is* the full-batch
@@ -753,9 +753,14 @@ def algo_case(ctx, mods, cfgs, i, rng):
   cfg = cfgs(config_index(ctx, i))
   D = cfg.num_domains
   algo_name = ['mime', 'mime_lite', 'agnostic_fed_avg', 'hyp_cluster'][(i + i // 4) % 4]   # every algorithm, every shard
+  if force_empty:
+    algo_name = ['mime', 'mime_lite'][(i + i // 4) % 2]
   n_clients = int(rng.randint(1, 4))
   sizes = [0 if rng.rand() < 0.2 else int(rng.randint(1, MAX_N + 1)) for _ in range(n_clients)]
-  if sum(sizes) == 0:
+  all_empty = force_empty or (algo_name in ('mime', 'mime_lite') and rng.rand() < 0.2)
+  if all_empty:
+    sizes = [0] * n_clients       # a round in which no participating client has a real example
+  elif sum(sizes) == 0:
     sizes[0] = int(rng.randint(1, MAX_N + 1))
   live_domains = sorted(rng.choice(D, size=int(rng.randint(1, D + 1)), replace=False).tolist())
   params = cfg.orc.init_params(rng)
@@ -772,7 +777,7 @@ def algo_case(ctx, mods, cfgs, i, rng):
       a.flags.writeable = False
     exs.append(ex)
   allx = {k: np.concatenate([ex[k] for ex in exs]) for k in exs[0]}
-  e_all = expected_dataset(cfg, params, allx)
+  e_all = None if all_empty else expected_dataset(cfg, params, allx)
   geoms = [(1, int(rng.choice(GEOM_BUCKETS))), (16, int(rng.choice(GEOM_BUCKETS))),
            (int(rng.choice([2, 3, 5, 8])), int(rng.choice(GEOM_BUCKETS)))]
   train_hp = cd.ShuffleRepeatBatchHParams(batch_size=4, num_epochs=1, seed=int(rng.randint(1000)))
@@ -816,6 +821,15 @@ def algo_case(ctx, mods, cfgs, i, rng):
       if not ok_struct:
         raise RuntimeError('momentum state does not mirror the params tree (harness assumption)')
       sg = dict(zip(names, leaves))
+      if all_empty:
+        w_ = {**gw, 'observed_server_grads': sg, 'expected': 0}
+        ctx.check(not has_nan(sg) and not has_nan(to64(st.params)), f'empty/{algo_name}-server-grad-nan',
+                  f'{algo_name}: NaN in the server gradient / params after a round without any real example', w_)
+        ctx.check(all(bool(np.all(v == 0)) for v in sg.values()), f'empty/{algo_name}-server-grad-not-zero',
+                  f'{algo_name}: a round without any real example must give a zero full-batch gradient', w_)
+        ctx.count('algo-all-clients-empty')
+        results.append(None)
+        continue
       w_ = {**gw, 'observed_server_grads': sg, 'expected': e_all['grad']}
       ctx.check(not has_nan(sg), f'empty/{algo_name}-server-grad-nan', f'{algo_name}: NaN in the server gradient', w_)
       ctx.check(tree_within(sg, e_all['grad'], e_all['grad_scale']), f'algo/{algo_name}-server-grad-vs-closed-form',
@@ -927,4 +941,6 @@ def run(ctx):
   t0 = time.time()
   for cid, rng in ctx.cases('algo', n_algo):
     algo_case(ctx, mods, cfgs, int(cid.split('/')[1]), rng)
+  for cid, rng in ctx.cases('algo-empty', 8 if ctx.quick else 64):
+    algo_case(ctx, mods, cfgs, int(cid.split('/')[1]), rng, force_empty=True)
   ctx.notes['shard0_seconds_algo_family'] = round(time.time() - t0, 1)
